@@ -28,8 +28,13 @@ def main() -> int:
     logging.getLogger("aioswitcher").addHandler(logging.NullHandler())   # keep the library's log lines off stderr
     from . import props
     from .core import run_check
+    if a.what == "beyond":          # every specification part outside the listed properties
+        rc = 0
+        for x in props.BEYOND:
+            rc = max(rc, run_check(props.load(x), a.tier, seed, None))
+        return rc
     pid = a.what.upper()
-    if pid not in props.IDS:
+    if pid not in props.IDS + props.BEYOND:
         print(f"unknown property {a.what}")
         return 2
     try:
